@@ -27,12 +27,43 @@ from lib import core
 
 PROPS = 'EdbVerif/Props/C14.lean'
 REQUIRED = [
-    'EdbVerif.C14.C14_roundtrip', 'EdbVerif.C14.C14_prefix_block', 'EdbVerif.C14.C14_prefix',
-    'EdbVerif.C14.C14_dedupe', 'EdbVerif.C14.C14_context', 'EdbVerif.C14.C14_id_inj',
-    'EdbVerif.C14.C14_id_collision', 'EdbVerif.C14.C14_anno_rejected',
+    'EdbVerif.C14.C14_roundtrip', 'EdbVerif.C14.C14_annotations', 'EdbVerif.C14.C14_roundtrip_real',
+    'EdbVerif.C14.C14_prefix_block', 'EdbVerif.C14.C14_prefix', 'EdbVerif.C14.C14_dedupe',
+    'EdbVerif.C14.C14_context', 'EdbVerif.C14.C14_id_inj', 'EdbVerif.C14.C14_id_collision',
+    'EdbVerif.C14.C14_anno_rejected',
 ]
 
 CARDS = {'NO_RESULT': 0x6e, 'AT_MOST_ONE': 0x6f, 'ONE': 0x41, 'MANY': 0x6d, 'AT_LEAST_ONE': 0x4d}
+
+
+def load_corpus() -> dict:
+    """regression cases (run first)"""
+    import os
+    out = {'id_calls': [], 'stub_nested_tuples': [], 'queries': []}
+    d = os.path.join(core.VERIF, 'corpus', 'C14')
+    if os.path.isdir(d):
+        for fn in sorted(os.listdir(d)):
+            if fn.endswith('.case'):
+                c = json.load(open(os.path.join(d, fn)))
+                for k in out:
+                    out[k] += c.get(k, [])
+    return out
+
+
+def tup(x):
+    """JSON -> the expected-description language of the level-2 stream"""
+    k = x[0]
+    if k == 'S':
+        return ('S', x[1])
+    if k == 'T':
+        return ('T', [tup(t) for t in x[1]])
+    if k == 'NT':
+        return ('NT', [(n, tup(t)) for (n, t) in x[1]])
+    if k in ('A', 'R', 'SET'):
+        return (k, tup(x[1]))
+    if k == 'SH':
+        return ('SH', x[1], [(n, c, tup(t), bool(l), bool(lp)) for (n, c, t, l, lp) in x[2]])
+    raise core.Infra(f'corpus: unknown expectation {x!r}')
 
 
 # =========================================================== wire trees
@@ -840,10 +871,11 @@ def l2_compile(ctx: core.Ctx, n_queries: int) -> dict:
             ctxs[pv, opt] = dataclasses.replace(base, inline_typenames=opt[0], inline_typeids=opt[1])
     rec = {'out': [], 'in': [],
            'schema_ids': {n: sch.get(n).id.bytes for n in ('default::myint', 'default::Color')}}
-    for qi, (text, exp, colon) in enumerate(systematic + queries):
-        for pv in (sys_pvs if qi < len(systematic) else pvs):
+    corpus = [(q['text'], tup(q['expect']), 'corpus') for q in load_corpus()['queries']]
+    for qi, (text, exp, colon) in enumerate(corpus + systematic + queries):
+        for pv in (pvs if colon == 'corpus' else sys_pvs if qi < len(corpus) + len(systematic) else pvs):
             opt = rng.choice([(False, False), (False, False), (True, False), (False, True)])
-            if qi < len(systematic):
+            if qi < len(corpus) + len(systematic):
                 opt = (False, False)
             try:
                 grp = env.server_compile(ctxs[pv, opt], text)
@@ -853,23 +885,6 @@ def l2_compile(ctx: core.Ctx, n_queries: int) -> dict:
                                          else unit.out_type_id), None))
             except Exception as e:      # noqa: BLE001
                 rec['out'].append((text, exp, colon, pv, opt, b'', b'', f'{type(e).__name__}: {e}'[:300]))
-                break
-    # two named tuples whose ids collide, inside ONE query (the second is then de-duplicated away)
-    by_id: dict = {}
-    for r in list(rec['out']):
-        if r[7] is None and r[1][0] == 'NT':
-            o = by_id.setdefault((r[3], r[6]), r)
-            if o[5] != r[5]:
-                text = f'select ({o[0][len("select "):]}, {r[0][len("select "):]})'
-                try:
-                    grp = env.server_compile(ctxs[r[3], (False, False)], text)
-                    unit = grp.units[0] if hasattr(grp, 'units') else grp[0]
-                    rec['out'].append((text, ('T', [o[1], r[1]]), 'combo', r[3], (False, False),
-                                       bytes(unit.out_type_data),
-                                       bytes(unit.out_type_id.bytes if hasattr(unit.out_type_id, 'bytes')
-                                             else unit.out_type_id), None))
-                except Exception:       # noqa: BLE001
-                    pass
                 break
     for text, exp in pq:
         for pv in pvs:
@@ -885,8 +900,6 @@ def l2_compile(ctx: core.Ctx, n_queries: int) -> dict:
 
 
 # ================================================================== the run
-COLON_KEY = 'id-collision-colon-in-name'
-ANNO_KEY = 'decoder-rejects-inline-typename-annotation'
 
 
 class Run:
@@ -901,10 +914,6 @@ class Run:
         self.n_dis = 0
         self.distinct = set()
         self.samples = []
-        self.colon_witness = None
-        self.l2_witness = None
-        self.l2_combo = None
-        self.colon_hits = 0
 
     def count(self, k, n=1):
         self.hist[k] = self.hist.get(k, 0) + n
@@ -928,11 +937,6 @@ class Run:
         for t in rpn_list(n):
             k = t.split('|', 1)[0]
             self.kinds[k] = self.kinds.get(k, 0) + 1
-
-    def colon_fail(self, detail):
-        self.colon_hits += 1
-        if self.colon_witness is None:
-            self.colon_witness = detail
 
     # -------------------------------------------------- stream A: real encoder
     def schema_case(self, w: World, label, real_fn, abs_fn, pv, *, decodable=True, annos=None,
@@ -962,7 +966,11 @@ class Run:
         root = trees[-1]
         for t in trees:
             self.note_tree(t)
-        line = (f'E {p} {rpn(root)}' if len(trees) == 1 else f'L {p} ' + ' '.join(rpn(t) for t in trees))
+        ann_entries = None
+        if annos is not None:
+            annos, ann_entries = annos
+        aspec = ann_spec(ann_entries)
+        line = (f'E {p} {rpn(root)} {aspec}' if len(trees) == 1 else f'L {p} ' + ' '.join(rpn(t) for t in trees))
         if line not in self.distinct and tree_size(root) > 1:
             self.distinct.add(line)
         faithful_ids = self.ids_faithful(trees)
@@ -990,11 +998,11 @@ class Run:
             self.count('A:derive-root-already-described')
         elif decodable:
             if annos:
-                if got is None:
-                    ctx.fail(ANNO_KEY, 'REAL parse() rejects the stream REAL describe(inline_typenames=True) '
-                             'emits below protocol 2.0 (annotation block 0xff+id+text has no decoder arm)',
-                             det | {'stream': full.hex(), 'real_parse': perr})
-                    self.count('A:anno-undecodable')
+                # sertypes.parse is server internal and not specified for annotation blocks: it is used
+                # on the annotation-free part only; the full stream goes through the documented-format
+                # decoder of the model below
+                self.count('A:real-parse-rejects-annotated-stream(observation)' if got is None
+                           else 'A:real-parse-accepts-annotated-stream')
                 got, perr = self.real_parse(real, pv)
             want_tree = dict_collapse(root)
             if got is None:
@@ -1004,19 +1012,28 @@ class Run:
                 det = det | {'decoded': rpn(got), 'expected': rpn(want_tree)}
         else:
             self.count('A:sqlrow-undecodable' if got is None else 'A:sqlrow-decoded?')
-        if problems:
-            if not faithful_ids and any(has_colon(t) for t in trees):
-                self.colon_fail({'level': 'real encoder on stub types', 'problems': problems} | det)
-            else:
-                for pr in problems:
-                    ctx.fail(f'oracle:{label}:{line[:200]}', pr, det)
+        for pr in problems:
+            ctx.fail(f'oracle:{label}:{line[:200]}', pr, det)
+        if len(trees) == 1 and (annos or not decodable):
+            # faithfulness through a client that follows the documented format (model `decodeDoc`)
+            want_doc = 'ok ' + rpn(root) + ' ' + (aspec if ann_entries else '-')
+            self.ask(f'DD {p} {full.hex()}',
+                     lambda out, want_doc=want_doc, det=det, full=full: None if out == want_doc else
+                     ctx.fail(f'oracle:doc-decode:{label}:{line[:200]}', 'the real stream (annotations / SQL row '
+                              'included) does not decode, per the documented format, to the description and the '
+                              'type names', det | {'stream': full.hex(), 'decoded': out[:3000],
+                                                   'expected': want_doc[:3000]}))
+            self.count('A:doc-decoder-oracle')
 
         # ---- correspondence with the model
-        def handler(out, real=real, det=det, line=line, problems=problems, faithful_ids=faithful_ids):
+        def handler(out, real=full, det=det, line=line, problems=problems, faithful_ids=faithful_ids):
             f = out.split(' ')
             if f[0] != 'ok':
                 self.disagree(line[:200], f'model says {out[:40]!r} where the real encoder produced bytes', det)
                 return
+            if len(trees) == 1 and (f[4] == '1') != faithful_ids:
+                self.disagree(line[:200], f'model documented-format round trip flag {f[4]} but ids faithful = '
+                              f'{faithful_ids}', det)
             if f[1] != real.hex():
                 self.disagree(line[:200], 'descriptor bytes differ', det | {'model_bytes': f[1]})
                 return
@@ -1057,11 +1074,24 @@ class Run:
                          lambda o, blk=blk: None if o == 'ok ' + blk.hex() else
                          self.disagree('anno:' + blk.hex()[:60], 'annoBlock bytes', {'model': o, 'py': blk.hex()}))
         visit(root)
-        return b''.join(out)
+        return b''.join(out), [(blk[1:17], blk[21:]) for blk in out]
 
     def stream_a(self, n_worlds: int):
         st, rng = self.st, self.ctx.rng
         PV1, PV2 = [(1, 0), (1, 0), (0, 13)], [(2, 0), (3, 0)]
+        for ci, pair in enumerate(load_corpus()['stub_nested_tuples']):      # regression cases first
+            w = World(self.sx, rng, True)
+            i64 = w.fund['std::int64']
+            inner = [self.sx.mk(self.sx.XTuple, w.rid(), x_subs=[i64] * len(ns), x_names=list(ns),
+                                x_name='tuple<' + ', '.join(f'{n}:std::int64' for n in ns) + '>',
+                                x_persistent=False) for ns in pair]
+            outer = self.sx.mk(self.sx.XTuple, w.rid(), x_subs=inner, x_names=None,
+                               x_name='tuple<' + ', '.join(t.x_name for t in inner) + '>', x_persistent=False)
+            for pv in ((1, 0), (3, 0)):
+                self.schema_case(w, 'corpus', lambda pv=pv, outer=outer, w=w: st.describe(
+                    w.schema, outer, protocol_version=pv)[0],
+                    lambda pv=pv, outer=outer, w=w: w.abs(outer, pv >= (2, 0)), pv,
+                    replay=f'corpus/C14 stub_nested_tuples[{ci}] pv={pv}')
         for wi in range(n_worlds):
             colon = wi % 8 == 7
             w = World(self.sx, rng, colon)
@@ -1078,12 +1108,12 @@ class Run:
                     rp = f'seed={self.ctx.seed} world={wi} type={ti} pv={pv} follow_links={fl} ' \
                          f'name_filter={nf!r} inline_typenames={inl}'
                     absf = lambda t=t, v2=v2, fl=fl, nf=nf: w.abs(t, v2, follow_links=fl, name_filter=nf)  # noqa: E731
-                    annos = b''
+                    annos = None
                     if inl and not v2:
                         try:
                             annos = self.anno_bytes(w, absf())
                         except LookupError:
-                            annos = b''
+                            annos = None
                     r = self.schema_case(
                         w, 'describe' + ('+colon' if colon else ''),
                         lambda t=t, pv=pv, fl=fl, nf=nf, inl=inl: st.describe(
@@ -1098,12 +1128,9 @@ class Run:
                         if old[0] != sig or old[1] != real:
                             det = {'id': root.id.hex(), 'a': {'case': old[2], 'sig': old[0], 'bytes': old[1].hex()},
                                    'b': {'case': rp, 'sig': sig, 'bytes': real.hex()}}
-                            if has_colon(old[3]) or has_colon(root):
-                                self.colon_fail({'level': 'real encoder on stub types: two structurally '
-                                                 'different types, one descriptor id'} | det)
-                            else:
-                                self.ctx.fail(f'oracle:id-clash:{root.id.hex()}',
-                                              'equal descriptor ids for different structure / bytes', det)
+                            self.ctx.fail(f'oracle:id-clash:{root.id.hex()}',
+                                          'equal descriptor ids for different structure / bytes '
+                                          '(real encoder on stub types)', det)
                         sigs_seen.setdefault((v2, fl, nf, sig), root.id)
             # describe_params / describe_sql_result / describe_input_shape / derive()
             pv = rng.choice(PV1 + PV2)
@@ -1280,10 +1307,20 @@ class Run:
         ns = sx.s_obj.TYPE_ID_NAMESPACE
         C = st.enums.Cardinality
         ids = [sx.s_obj.get_known_type_id(n) for n in ('std::int64', 'std::str', 'std::uuid')]
-        pool = ['a', 'b', 'c', 'a:b', 'b:c', 'a:b:c', ':', '', 'é', 'a;b', 'x y', 'True', 'None;None']
+        pool = ['a', 'b', 'c', 'a:b', 'b:c', 'a:b:c', ':', '', 'é', 'a;b', 'x y', 'True', 'None;None', '\\',
+                'a\\', '\\:b', 'a\\:b']
         xs = lambda l: ','.join('x' + s.encode().hex() for s in l) if l else '-'  # noqa: E731
         bl = lambda l: 'N' if l is None else (','.join('1' if b else '0' for b in l) or '-')  # noqa: E731
         keys = []
+        for pair in load_corpus()['id_calls']:          # regression cases first
+            for (fn, base, subs, names) in pair:
+                sids = [sx.s_obj.get_known_type_id(x) for x in subs]
+                if fn == 'c':
+                    keys.append(('c', base, sids, list(names)))
+                else:
+                    keys.append(('s', base, sids, list(names), [C.ONE] * len(sids), [False] * len(sids),
+                                 [False] * len(sids), False))
+            self.count('D:corpus-pair')
         # exhaustive small part: every name list of length <= 2 over the pool, fixed subtypes
         for k in (1, 2):
             for names in itertools.product(pool, repeat=k):
@@ -1361,11 +1398,7 @@ class Run:
                 (k1, l1), (k2, l2) = items[0], items[1]
                 det = {'level': 'real id function', 'id': str(real), 'call_1': repr(k1), 'call_2': repr(k2),
                        'model_lines': [l1, l2], 'group_size': len(grp)}
-                allnames = [n for k in (k1, k2) if k[0] != 't' for n in (k[3] or [])]
-                if any(':' in n for n in allnames):
-                    self.colon_fail(det)
-                else:
-                    self.ctx.fail(f'id-collision:{l1}|{l2}', 'two different argument lists, one type id', det)
+                self.ctx.fail(f'id-collision:{l1}|{l2}', 'two different argument lists, one type id', det)
         self.count('D:distinct-ids', len(by_id))
 
 
@@ -1398,10 +1431,7 @@ class Run:
                     k = self.anno_split(data)
                     if k is not None:
                         body = data[:k]
-                        ctx.fail(ANNO_KEY, 'REAL parse() rejects the out_type_data of an accepted query compiled with '
-                                 'inline_typenames below protocol 2.0', rp | {'out_type_data': data.hex(),
-                                                                              'real_parse': perr})
-                        self.count('L2:anno-undecodable')
+                        self.count('L2:real-parse-rejects-annotated-stream(observation)')
                         got, perr = self.real_parse(body, pv)
                 problems = []
                 if got is None:
@@ -1415,11 +1445,6 @@ class Run:
                         problems += l2_reid(got, st, U, None)
                     if v2 and walk_frames(body) != len({u.id for u in subtrees(got)}):
                         problems.append('length prefixes do not frame one block per distinct descriptor')
-                if colon == 'combo':
-                    self.l2_combo = rp | {'out_type_data': data.hex(), 'decoded': rpn(got) if got else perr,
-                                          'expected': repr(exp), 'description_is_wrong': bool(problems),
-                                          'problems': problems}
-                    problems = []
                 for pr in problems:
                     ctx.fail(f'oracle:l2:{pv}:{text}', 'compiled query: ' + pr,
                              rp | {'out_type_data': data.hex(), 'decoded': rpn(got) if got else None,
@@ -1431,13 +1456,8 @@ class Run:
                     det = {'level': 'ACCEPTED QUERIES through the real compiler (level 2)', 'out_type_id': tid.hex(),
                            'query_1': old[1], 'out_type_data_1': old[0].hex(),
                            'query_2': text, 'out_type_data_2': data.hex()} | rp
-                    if ':' in old[1] or ':' in text.replace(':=', ''):
-                        if self.l2_witness is None:
-                            self.l2_witness = det
-                        self.colon_hits += 1
-                    else:
-                        ctx.fail(f'oracle:l2-id-clash:{tid.hex()}', 'two queries, one out_type_id, different '
-                                 'descriptors', det)
+                    ctx.fail(f'oracle:l2-id-clash:{tid.hex()}', 'two accepted queries, one out_type_id, different '
+                             'descriptors', det)
                 o2 = seen_struct.setdefault((pv, opt, repr(exp)), (tid, data, text))
                 if o2[0] != tid or o2[1] != data:
                     ctx.fail(f'oracle:l2-unstable-id:{text}', 'structurally equal queries got different '
@@ -1446,6 +1466,27 @@ class Run:
                 if got is not None:
                     p = '2' if v2 else '1'
                     want = rpn(got)
+                    if body != data:
+                        # annotated stream: documented-format decoder gives the same description and the
+                        # annotations map the ids of the user-defined scalars / enums to their names
+                        id2name = {v: k for k, v in rec['schema_ids'].items()}
+
+                        def chk_doc(out, want=want, rp=rp, data=data, id2name=id2name, got=got):
+                            f = out.split(' ')
+                            ok = f[0] == 'ok' and (has_dup_names(got) or f[1] == want)
+                            names = {}
+                            if f[0] == 'ok' and f[2] != '-':
+                                for e in f[2].split(','):
+                                    i, t = e.split(':x')
+                                    names[bytes.fromhex(i)] = bytes.fromhex(t).decode()
+                            used = {u.id for u in subtrees(got) if u.id in id2name}
+                            if not ok or names != {i: id2name[i] for i in used}:
+                                ctx.fail('oracle:l2-doc-decode:' + rp['query'], 'annotated out_type_data does not '
+                                         'decode (documented format) to the description + type names',
+                                         rp | {'out_type_data': data.hex(), 'decoded': out[:2000],
+                                               'expected_names': {i.hex(): id2name[i] for i in used}})
+                        self.ask(f'DD {p} {data.hex()}', chk_doc)
+                        self.count('L2:doc-decoder-oracle')
                     self.ask(f'D {p} {body.hex()}',
                              lambda out, want=want, rp=rp, body=body: None if out == 'ok ' + want else
                              self.disagree('l2-decode:' + rp['query'], 'model decode of out_type_data differs from '
@@ -1493,6 +1534,12 @@ class Run:
         return None
 
 
+def ann_spec(entries) -> str:
+    if entries is None:
+        return 'N'
+    return ','.join(f'{i.hex()}:x{t.hex()}' for (i, t) in entries) or '-'
+
+
 def parse_rpn(s: str) -> Node:
     stack = []
     for tok in s.split(';'):
@@ -1534,39 +1581,6 @@ def parse_rpn(s: str) -> Node:
     return stack[0]
 
 
-def colon_consequence(R: Run, wit: dict) -> dict:
-    """Replay a collision found on the id functions one level up: both tuple
-    types inside ONE described type, through the REAL encoder and decoder."""
-    sx, st = R.sx, R.st
-    try:
-        k1, k2 = eval(wit['call_1'], {'UUID': sx.uuidgen.UUID}), eval(wit['call_2'], {'UUID': sx.uuidgen.UUID})
-    except Exception:       # noqa: BLE001
-        return {}
-    if k1[0] != 'c' or k2[0] != 'c' or k1[1] != 'tuple' or k2[1] != 'tuple':
-        return {}
-    w = World(sx, R.ctx.rng, True)
-    by_id = {s.id: s for s in w.fund.values()}
-
-    def tup(k):
-        subs = [by_id[i] for i in k[2]]
-        return sx.mk(sx.XTuple, w.rid(), x_subs=subs, x_names=list(k[3]), x_name='tuple<…>', x_persistent=False)
-    outer = sx.mk(sx.XTuple, w.rid(), x_subs=[tup(k1), tup(k2)], x_names=None, x_name='tuple<…>',
-                  x_persistent=False)
-    out = {}
-    for pv in ((1, 0), (3, 0)):
-        b, _tid = st.describe(w.schema, outer, protocol_version=pv)
-        got, perr = R.real_parse(b, pv)
-        want = w.abs(outer, pv >= (2, 0))
-        out[f'protocol {pv}'] = {
-            'described_type': f'tuple<tuple<{k1[3]}>, tuple<{k2[3]}>>',
-            'real_descriptor': b.hex(),
-            'real_parse': rpn(got) if got else perr,
-            'expected_description': rpn(want),
-            'description_is_wrong': got is None or rpn(got) != rpn(want),
-        }
-    return out
-
-
 def run(ctx: core.Ctx):
     proved = ctx.proof_stage(PROPS, ['EdbVerif.Props.C14', 'Driver.C14'], required=REQUIRED)
     ctx.log('proof stage:', 'ok' if proved else ctx.proof['broken'])
@@ -1576,6 +1590,17 @@ def run(ctx: core.Ctx):
         ctx.log(f'level 2: {len(l2["out"])} compilations through the real compiler')
     R = Run(ctx)
     R.pending_mut = []
+    # assumption behind `NoSep`: a name cannot contain NUL (the real tokenizer rejects U+0000)
+    try:
+        from lib import rustlex
+        rustlex.build()
+        lx = rustlex.lex_many(['select (`a\x00b` := 1)', 'select `a\x00b`'])
+        if any(r.error is None for r in lx):
+            ctx.fail('assumption:nul-in-name', 'the tokenizer accepts U+0000 inside a quoted name: the id strings '
+                     'use NUL as part separator', {'lexed': [repr(r) for r in lx]}, no_input=True)
+        R.count('assumption:tokenizer-rejects-NUL-in-names')
+    except core.Infra:
+        raise
 
     if ctx.replay:
         rp = json.load(open(ctx.replay))
@@ -1612,23 +1637,6 @@ def run(ctx: core.Ctx):
             h(o)
         ctx.log(f'round 2: {len(R.lines)} malformed streams')
 
-    if R.colon_witness is None and R.l2_witness is not None:
-        R.colon_witness = {'level': 'accepted queries'}
-    if R.colon_witness is not None:
-        det = dict(R.colon_witness)
-        det['occurrences_this_run'] = R.colon_hits
-        if det.get('level') == 'real id function':
-            det['consequence_through_real_encoder_and_decoder'] = colon_consequence(R, det)
-        if R.l2_witness is not None:
-            det['query_reachable'] = R.l2_witness
-            if R.l2_combo is not None:
-                det['query_reachable_wrong_description'] = R.l2_combo
-            det['reachability'] = ('REACHABLE: two accepted queries compiled by the real compiler get the same '
-                                   'out_type_id with different out_type_data (see query_reachable)')
-        else:
-            det['reachability'] = 'function-level reproduction only (no colliding pair among the compiled queries)'
-        ctx.fail(COLON_KEY, 'structurally different types share one descriptor id: element names are joined '
-                 'with ":" without escaping (_get_collection_type_id / _get_object_shape_id)', det)
     if not proved:
         ctx.proof_broken_verdict()
 
